@@ -129,6 +129,10 @@ def _get_import_for_qualname(qualname: str) -> str:
 def get_imports_for_annotation(anno: Any) -> ImportMap:
     """Return the imports (module, name) needed for the type in the annotation"""
     imports = ImportMap()
+    if hasattr(anno, "__supertype__"):
+        # a typing.NewType is rendered by its name, which has to come from somewhere
+        imports[anno.__module__].add(anno.__name__)
+        return imports
     if (
         anno is inspect.Parameter.empty
         or anno is inspect.Signature.empty
